@@ -238,7 +238,8 @@ def mon_history(sc, out):
 def run(ctx, depth):
     rng = ctx.rng
     quick = depth == "quick"
-    n = 36 if quick else 1200
+    searching = depth == "search"        # a broken proof or correspondence: look for a failing input, stop at the first one
+    n = 36 if quick else (480 if searching else 1200)
     chunk = 36 if quick else 60          # histories per harness batch: the per-op world dumps are large, keep memory bounded
     scs, finals = [], []
     terms, idx = [], []
@@ -319,6 +320,10 @@ def run(ctx, depth):
                 qterms.append("(%s, %s)" % (hs, rc.r_world(dump_world(out["final"], base))))
                 qidx.append(i)
         del outs
+        if searching and ctx.violations:
+            break
+    if searching:
+        return
     n_obs = len(rterms)
     # plus synthetic settled worlds (mixed: missing, failed, outdated, extra pods; never seen by the implementation): here the
     # abstract round is compared with the round of the full model only, which the history family ties to the implementation
@@ -439,7 +444,7 @@ def run_outage_family(ctx, depth):
 
 
 def search(ctx):
-    run(ctx, "thorough")
+    run(ctx, "search")
 
 
 def replay(data):
